@@ -117,3 +117,278 @@ Theorem C07_default_semantics : forall cc (value out fspec : Type) (render : tra
     end.
 Proof. exact default_semantics. Qed.
 Print Assumptions C07_default_semantics.
+
+(** ---- coverage-growth round: pinned below ---- *)
+From Verif Require Import Fmt.Front C07.Cases C02.FrontProofs.
+
+(** complete case analysis of [shared_attr_info]: (effective enum-level format?, wrapping?) *)
+Theorem C07_shared_attr_info_cases :
+  forall (cc : CharClass) (d : dexpansion),
+  shared_attr_info cc d =
+  match d_shared d with
+  | Some sa =>
+  if mentions_variant cc sa
+  then if bare_same_trait cc sa (d_trait d) then (false, false) else (true, true)
+  else (true, false)
+  | None => (false, false)
+  end.
+Proof. exact Cases.shared_attr_info_cases. Qed.
+Print Assumptions C07_shared_attr_info_cases.
+
+(** [generate_body] fails in exactly one situation: several fields, no format of its own, no usable default *)
+Theorem C07_body_error_iff :
+  forall (cc : CharClass) (d : dexpansion) (c : N),
+  d_generate_body cc d = RErr c <->
+  c = E_multi_field_no_attr /\
+  d_fmt d = None /\
+  (exists (f1 f2 : field) (l : list field), fl (d_fields d) = f1 :: f2 :: l) /\ ~ default_available cc d.
+Proof. exact Cases.body_error_iff. Qed.
+Print Assumptions C07_body_error_iff.
+
+(** one variant of [expand_enum]: the three diagnostics in the order they are tried (the unit/non-Display refusal only when no enum-level format covers the variant) *)
+Theorem C07_expand_variant_cases :
+  forall (cc : CharClass) (d : dexpansion),
+  d_expand_variant cc d =
+  (if negb (variant_spec_ok cc (d_shared d))
+  then RErr E_variant_spec
+  else
+  if unit_without_format d && negb (trait_eqb (d_trait d) TrDisplay) && not_covered cc d
+  then RErr E_unit_variant_non_display
+  else match d_generate_body cc d with
+  | ROk b => ROk (b, d_generate_bounds cc d)
+  | RErr c => RErr c
+  end).
+Proof. exact Cases.expand_variant_cases. Qed.
+Print Assumptions C07_expand_variant_cases.
+
+(** ... and exactly when each is issued *)
+Theorem C07_expand_variant_error_iff :
+  forall (cc : CharClass) (d : dexpansion) (c : N),
+  d_expand_variant cc d = RErr c <->
+  variant_spec_ok cc (d_shared d) = false /\ c = E_variant_spec \/
+  variant_spec_ok cc (d_shared d) = true /\
+  unit_without_format d = true /\
+  d_trait d <> TrDisplay /\ not_covered cc d = true /\ c = E_unit_variant_non_display \/
+  variant_spec_ok cc (d_shared d) = true /\
+  c = E_multi_field_no_attr /\
+  d_fmt d = None /\
+  (exists (f1 f2 : field) (l : list field), fl (d_fields d) = f1 :: f2 :: l) /\ ~ default_available cc d.
+Proof. exact Cases.expand_variant_error_iff. Qed.
+Print Assumptions C07_expand_variant_error_iff.
+
+(** a variant is accepted iff none of them applies *)
+Theorem C07_expand_variant_ok_iff :
+  forall (cc : CharClass) (d : dexpansion),
+  (exists r : body * list bound, d_expand_variant cc d = ROk r) <->
+  variant_spec_ok cc (d_shared d) = true /\
+  (unit_without_format d = true -> not_covered cc d = true -> d_trait d = TrDisplay) /\
+  (d_fmt d = None ->
+  (exists (f1 f2 : field) (l : list field), fl (d_fields d) = f1 :: f2 :: l) -> default_available cc d).
+Proof. exact Cases.expand_variant_ok_iff. Qed.
+Print Assumptions C07_expand_variant_ok_iff.
+
+(** a variant without a format of its own under an enum-level format that does not mention [_variant] prints that format under EVERY Display-like derive, field-less variants included (repo fix 3d5b8b4; before it the non-Display derives refused such a unit variant - the old shape is kept as the regression Example ex_unit_lower_hex_default_accepted) *)
+Theorem C07_default_used_any_derive :
+  forall (cc : CharClass) (d : dexpansion) (sa : fmt_attr),
+  d_shared d = Some sa ->
+  mentions_variant cc sa = false ->
+  d_fmt d = None -> d_expand_variant cc d = ROk (shared_body cc d sa, d_generate_bounds cc d).
+Proof. exact Cases.default_used_any_derive. Qed.
+Print Assumptions C07_default_used_any_derive.
+
+(** the non-Display derives still refuse a field-less variant without a format of its own when nothing covers it: no enum-level format, or one that wraps via [_variant] *)
+Theorem C07_unit_non_display_rejected_when_not_covered :
+  forall (cc : CharClass) (d : dexpansion),
+  variant_spec_ok cc (d_shared d) = true ->
+  not_covered cc d = true ->
+  d_fmt d = None ->
+  fl (d_fields d) = [] -> d_trait d <> TrDisplay -> d_expand_variant cc d = RErr E_unit_variant_non_display.
+Proof. exact Cases.unit_non_display_rejected_when_not_covered. Qed.
+Print Assumptions C07_unit_non_display_rejected_when_not_covered.
+
+(** the Display instance of the above *)
+Theorem C07_unit_display_uses_default :
+  forall (cc : CharClass) (d : dexpansion) (sa : fmt_attr),
+  d_shared d = Some sa ->
+  mentions_variant cc sa = false ->
+  d_fmt d = None ->
+  d_trait d = TrDisplay -> d_expand_variant cc d = ROk (shared_body cc d sa, d_generate_bounds cc d).
+Proof. exact Cases.unit_display_uses_default. Qed.
+Print Assumptions C07_unit_display_uses_default.
+
+(** [expand_enum] succeeds iff the [_variant] check passes and every variant is accepted; the arms are the variants' in order *)
+Theorem C07_expand_enum_ok_iff :
+  forall (cc : CharClass) (shared : option fmt_attr) (vs : list dexpansion) (arms : list (body * list bound)),
+  d_expand_enum cc shared vs = ROk arms <->
+  variant_spec_ok cc shared = true /\ map (d_expand_variant cc) vs = map ROk arms.
+Proof. exact Cases.expand_enum_ok_iff. Qed.
+Print Assumptions C07_expand_enum_ok_iff.
+
+(** ... otherwise the [_variant] diagnostic, or the diagnostic of the FIRST refused variant *)
+Theorem C07_expand_enum_error_iff :
+  forall (cc : CharClass) (shared : option fmt_attr) (vs : list dexpansion) (c : N),
+  d_expand_enum cc shared vs = RErr c <->
+  variant_spec_ok cc shared = false /\ c = E_variant_spec \/
+  variant_spec_ok cc shared = true /\
+  (exists (pre : list dexpansion) (v : dexpansion) (post : list dexpansion) (arms : list (body * list bound)),
+  vs = pre ++ v :: post /\ map (d_expand_variant cc) pre = map ROk arms /\ d_expand_variant cc v = RErr c).
+Proof. exact Cases.expand_enum_error_iff. Qed.
+Print Assumptions C07_expand_enum_error_iff.
+
+(** the [_variant] diagnostic is issued iff some [_variant] placeholder carries a specifier or a non-Display trait *)
+Theorem C07_variant_spec_rejected_iff :
+  forall (cc : CharClass) (sa : fmt_attr) (vs : list dexpansion),
+  Forall (fun d : dexpansion => d_shared d = Some sa) vs ->
+  d_expand_enum cc (Some sa) vs = RErr E_variant_spec <->
+  (exists p : placeholder,
+  In p (placeholders_by_arg cc sa variant_ident) /\ (ph_mods p = true \/ ph_trait p <> TrDisplay)).
+Proof. exact Cases.variant_spec_rejected_iff. Qed.
+Print Assumptions C07_variant_spec_rejected_iff.
+
+(** the documented meaning as one equation: wrapping binds [_variant] to the text the variant prints by itself (own attribute, else single field, else name); otherwise the enum-level format is a default only *)
+Theorem C07_wrap_or_default :
+  forall (cc : CharClass) (value out fspec : Type) (render : trait -> value -> fspec -> out)
+  (run : fmt_attr -> list ident -> (ident -> value) -> out) (text_value : out -> value)
+  (name_text : str -> out) (default_fspec : fspec) (eval : texpr -> (ident -> value) -> value)
+  (d : dexpansion) (sa : fmt_attr) (b : body) (env : ident -> value) (sp : fspec),
+  d_shared d = Some sa ->
+  bare_same_trait cc sa (d_trait d) = false ->
+  d_generate_body cc d = ROk b ->
+  sem value out fspec render run text_value name_text default_fspec eval b env sp =
+  (if mentions_variant cc sa
+  then
+  match variant_text cc value out fspec render run name_text default_fspec d env with
+  | Some t =>
+  sem value out fspec render run text_value name_text default_fspec eval (shared_body cc d sa)
+  (bind value variant_ident (text_value t) env) sp
+  | None => sem value out fspec render run text_value name_text default_fspec eval b env sp
+  end
+  else
+  match d_fmt d with
+  | Some a =>
+  sem value out fspec render run text_value name_text default_fspec eval (own_body cc d a) env sp
+  | None =>
+  sem value out fspec render run text_value name_text default_fspec eval (shared_body cc d sa) env sp
+  end).
+Proof. exact Cases.wrap_or_default. Qed.
+Print Assumptions C07_wrap_or_default.
+
+(** an accepted wrapped variant always has such a text *)
+Theorem C07_wrapped_variant_has_text :
+  forall (cc : CharClass) (value out fspec : Type) (render : trait -> value -> fspec -> out)
+  (run : fmt_attr -> list ident -> (ident -> value) -> out) (name_text : str -> out)
+  (default_fspec : fspec) (d : dexpansion) (sa : fmt_attr) (b : body) (env : ident -> value),
+  d_shared d = Some sa ->
+  mentions_variant cc sa = true ->
+  bare_same_trait cc sa (d_trait d) = false ->
+  d_generate_body cc d = ROk b ->
+  variant_text cc value out fspec render run name_text default_fspec d env <> None.
+Proof. exact Cases.wrapped_variant_has_text. Qed.
+Print Assumptions C07_wrapped_variant_has_text.
+
+(** wrapping, single-field variant *)
+Theorem C07_wrap_semantics_single_field :
+  forall (cc : CharClass) (value out fspec : Type) (render : trait -> value -> fspec -> out)
+  (run : fmt_attr -> list ident -> (ident -> value) -> out) (text_value : out -> value)
+  (name_text : str -> out) (default_fspec : fspec) (eval : texpr -> (ident -> value) -> value)
+  (d : dexpansion) (sa : fmt_attr) (f : field) (env : ident -> value) (sp : fspec),
+  d_shared d = Some sa ->
+  mentions_variant cc sa = true ->
+  bare_same_trait cc sa (d_trait d) = false ->
+  d_fmt d = None ->
+  fl (d_fields d) = [f] ->
+  exists b : body,
+  d_generate_body cc d = ROk b /\
+  sem value out fspec render run text_value name_text default_fspec eval b env sp =
+  sem value out fspec render run text_value name_text default_fspec eval (shared_body cc d sa)
+  (bind value variant_ident
+  (text_value
+  (render (d_trait d) (env match fname f with
+  | Some n => n
+  | None => positional_ident 0
+  end) default_fspec)) env) sp.
+Proof. exact Proofs.wrap_semantics_single_field. Qed.
+Print Assumptions C07_wrap_semantics_single_field.
+
+(** the (rename_all-converted) name is used for unit variants without a format and for nothing else *)
+Theorem C07_name_only_matters_for_units :
+  forall (cc : CharClass) (d : dexpansion) (n : str),
+  unit_without_format d = false -> d_generate_body cc (with_name d n) = d_generate_body cc d.
+Proof. exact Cases.name_only_matters_for_units. Qed.
+Print Assumptions C07_name_only_matters_for_units.
+
+(** rename_all: a variant's name is converted by its own rename_all, else by the enum's, else not at all *)
+Theorem C07_variant_name :
+  forall (to_case : casing -> str -> str) (container : dattrs) (params : list ident)
+  (tr : trait) (v : rvariant) (a : dattrs),
+  d_parse_attrs (attr_name_of tr) (rv_attrs v) = ROk a ->
+  exists d : dexpansion,
+  d_variant_expansion to_case container params tr v = ROk d /\
+  d_name d =
+  unit_name to_case match da_rename a with
+  | Some k => Some k
+  | None => da_rename container
+  end (rv_ident v) /\
+  d_shared d = ca_fmt (da_common container) /\
+  d_fmt d = ca_fmt (da_common a) /\
+  d_user_bounds d = ca_bounds (da_common a) /\ d_fields d = plain_fields (rv_fields v) /\ d_trait d = tr.
+Proof. exact FrontProofs.variant_name. Qed.
+Print Assumptions C07_variant_name.
+
+(** ... and a unit variant of a Display enum without any format prints exactly that name *)
+Theorem C07_unit_variant_prints :
+  forall (cc : CharClass) (to_case : casing -> str -> str) (container : dattrs) (params : list ident)
+  (v : rvariant) (a : dattrs),
+  d_parse_attrs (attr_name_of TrDisplay) (rv_attrs v) = ROk a ->
+  ca_fmt (da_common container) = None ->
+  ca_fmt (da_common a) = None ->
+  rfl (rv_fields v) = [] ->
+  exists bs : list bound,
+  d_variant_result cc to_case container params TrDisplay v =
+  ROk
+  (BWriteStr
+  (unit_name to_case match da_rename a with
+  | Some k => Some k
+  | None => da_rename container
+  end (rv_ident v)), bs).
+Proof. exact FrontProofs.unit_variant_prints. Qed.
+Print Assumptions C07_unit_variant_prints.
+
+(** the literal standing for a single-field variant inside an enum-level format is the bare placeholder of the derived trait (table [trait_name_to_default_placeholder_literal]) *)
+Theorem C07_default_placeholder_literal_spec_unicode :
+  forall tr : trait,
+  placeholders XidTable.unicode_cc (default_placeholder_literal tr) =
+  [{| ph_arg := Positional 0; ph_mods := false; ph_trait := tr |}].
+Proof. exact Cases.default_placeholder_literal_spec_unicode. Qed.
+Print Assumptions C07_default_placeholder_literal_spec_unicode.
+
+(** the same under the ASCII tables *)
+Theorem C07_default_placeholder_literal_spec_ascii :
+  forall tr : trait,
+  placeholders ascii_cc (default_placeholder_literal tr) =
+  [{| ph_arg := Positional 0; ph_mods := false; ph_trait := tr |}].
+Proof. exact Cases.default_placeholder_literal_spec_ascii. Qed.
+Print Assumptions C07_default_placeholder_literal_spec_ascii.
+
+(** ... i.e. as an attribute it would be a delegation to that field under the derived trait *)
+Theorem C07_field_format_args_transparent :
+  forall (tr : trait) (f : ident),
+  transparent_call ascii_cc (field_format_args_attr tr f) = Some (EIdent f, tr).
+Proof. exact Cases.field_format_args_transparent. Qed.
+Print Assumptions C07_field_format_args_transparent.
+
+(** whole-item statement: an enum-level format on Debug is rejected whatever the variants are *)
+Theorem C07_debug_enum_level_format_rejected :
+  forall (cc : CharClass) (it : ritem) (a : cattrs) (x : fmt_attr) (vs : list rvariant),
+  c_parse_attrs Lits.n_debug (ri_attrs it) = ROk a ->
+  ca_fmt a = Some x -> ri_data it = REnum vs -> g_expand_item cc it = RErr E_debug_enum_fmt.
+Proof. exact FrontProofs.debug_enum_level_format_rejected. Qed.
+Print Assumptions C07_debug_enum_level_format_rejected.
+
+(** Debug reads a variant's attributes as formats only *)
+Theorem C07_debug_variant_attrs_format_only :
+  forall (cc : CharClass) (container : cattrs) (params : list ident) (v : rvariant) (r : gbody * list bound),
+  g_variant_result cc container params v = ROk r ->
+  forall c : raw_content, In c (attrs_named Lits.n_debug (rv_attrs v)) -> exists a : fmt_attr, c = RCFmt a.
+Proof. exact FrontProofs.debug_variant_attrs_format_only. Qed.
+Print Assumptions C07_debug_variant_attrs_format_only.
